@@ -202,18 +202,34 @@ class Emitter:
                 raise ValueError(f"bad target {tgt!r}")
         elif op == "chain":
             v = self.e(s[2])
-            srcs = " = ".join(self.target_src(t) for t in s[1])
             if T:
                 tv = self.tmp()
                 self.w(f"{tv} = {v}")
+                # python binds the targets left to right
                 for t in s[1]:
                     if isinstance(t, str):
                         self.w(f"{t} = T.b(_A, {t!r}, {tv})")
+                    elif t[0] == "attr":
+                        name = f"{t[1]}.{t[2]}"
+                        self.w(f"{name} = T.b(_A, {name!r}, {tv})")
+                    elif t[0] == "sub":
+                        to, tk = self.tmp(), self.tmp()
+                        self.w(f"{to} = {t[1]}")
+                        self.w(f"{tk} = {self.e(t[2])}")
+                        self.w(f"{to}[{tk}] = T.b(_A, '{t[1]}[%r]' % ({tk},), {tv})")
                     else:
                         self.w(f"{self.target_src(t)} = {tv}")
                         self.rebinds(self.target_names(t))
             else:
-                self.w(f"{srcs} = {v}")
+                srcs = []
+                for t in s[1]:
+                    if isinstance(t, list) and t[0] == "attr":
+                        srcs.append(f"{t[1]}.{t[2]}")
+                    elif isinstance(t, list) and t[0] == "sub":
+                        srcs.append(f"{t[1]}[{self.e(t[2])}]")
+                    else:
+                        srcs.append(self.target_src(t))
+                self.w(f"{' = '.join(srcs)} = {v}")
         elif op == "aug":
             v = self.e(s[2])
             self.w(f"{s[1]} += {v}")
